@@ -18,16 +18,32 @@ LifeVerdict(ev) ==
        ELSE IF ~FinalOK(run.f, owners1, {ev.life.extend[j] : j \in 1..Len(ev.life.extend)}) THEN "life-final"
        ELSE "ok"
 
+\* Contract build (C05): a call outside the documented precondition must end in the assertion handler,
+\* with a location, and - all vector preconditions are visible from the arguments - with both objects
+\* still exactly as before the call.  A call inside the precondition must never reach the handler.
+\* a violating *constructor* call has no object yet whose state could be preserved (the harness destroys
+\* the old object first); only the other object must be untouched
+CtorOps == {"ctor_default", "ctor_n", "ctor_fill", "ctor_range", "ctor_copy", "ctor_move"}
+OtherObj(o) == IF o = "a" THEN "b" ELSE "a"
+
 Judge(ev) ==
     IF ev.op = "reset" THEN "ok"
+    ELSE IF ev.op = "owner_end" THEN (IF ev.live = 0 THEN "ok" ELSE "life-balance")
+    ELSE IF "outcome" \in DOMAIN ev /\ ~Pre(ev.op, ev.o, ev.x, ev.pre, ev.cap) THEN
+        (IF ev.outcome # "handler" THEN "contract-missed"
+         ELSE IF ev.hline <= 0 THEN "contract-nolocation"
+         ELSE IF ev.op \in CtorOps /\ ev.snap[OtherObj(ev.o)] # ev.pre[OtherObj(ev.o)] THEN "contract-modified"
+         ELSE IF ev.op \notin CtorOps /\ ev.snap # ev.pre THEN "contract-modified"
+         ELSE "ok")
     ELSE IF ~Pre(ev.op, ev.o, ev.x, ev.pre, ev.cap) THEN "harness-pre"
+    ELSE IF "outcome" \in DOMAIN ev /\ ev.outcome # "returned" THEN "contract-spurious"
     ELSE IF ~Post(ev.op, ev.o, ev.x, ev.pre, ev.cap, ev.post, ev.ret) THEN "post"
     ELSE IF ~ObsOK(ev.obs, ev.post, ev.cap) THEN "obs"
     ELSE IF "life" \in DOMAIN ev THEN LifeVerdict(ev)
     ELSE "ok"
 
 Expected(ev) ==
-    IF ev.op # "reset" /\ Pre(ev.op, ev.o, ev.x, ev.pre, ev.cap)
+    IF ev.op \notin {"reset", "owner_end"} /\ "post" \in DOMAIN ev /\ Pre(ev.op, ev.o, ev.x, ev.pre, ev.cap)
     THEN ToJson(Eff(ev.op, ev.o, ev.x, ev.pre, ev.cap)) ELSE "-"
 
 Init == l = 1 /\ nbad = 0
